@@ -28,7 +28,7 @@ def scenarios(tier, seed):
              "box_sizes": [8, 16] if i % 3 == 1 else None, "time": [0.123, 0.0, 1e-9, 42.5][i % 4],
              "n0": [8, 8, 8] if i % 4 == 3 else None,
              "version": [None, "NavierStokes-V1.1", "MyCode 2.0"][i % 3],             # the version line is free text of the writing code
-             "rewrite_in_place": i % 4 == 1} for i in range(n)]
+             "rewrite_in_place": i % 4 == 1, "large_offsets": i % 6 == 2} for i in range(n)]
 
 
 def run_scenario(p, wd):
